@@ -55,8 +55,10 @@ CLAIMED = {
              design="5 C07"),
  'C10': dict(text="Theorems: after any history the cached volume equals the sum of the volumes of the contents (every container and well); "
              "get_volume and get_concentration equal their definitions from contents (any prefix, numerator/denominator base units); "
-             "volumes are additive over transfers. Plate observers (get_volumes, get_moles, get_substances) are checked against "
-             "definitions by the oracle on the implementation.",
+             "volumes are additive over transfers; after any history every plate's volume array (get_volumes, any unit prefix) is, well by well, the "
+             "volume of that well's contents and Plate.get_volume their sum; with substances named an entry is the sum of those substances' "
+             "amounts in that well (PlateObs.v). The numpy side of the plate observers (get_volumes, get_moles, get_substances: vectorize, "
+             "round, slices) is checked against the model's wells by the oracle on the implementation.",
              technique="Coq proof (history invariant + observer definitions); differential correspondence; observer recomputation with exact fractions",
              design="5 C10"),
  'C08': dict(text="Theorems (programs of any length over the whole recipe vocabulary, shared containers/plates/slices): bake is the eager fold over "
